@@ -74,12 +74,25 @@ void LoopServer::incomingConnection(qintptr handle)
     connect(s, &QIODevice::readyRead, this, &LoopServer::onReadyRead);
 }
 
+void LoopServer::holdReads(bool on)
+{
+    m_holdReads = on;
+    if (!on && m_peer && m_peer->bytesAvailable() > 0) {
+        drain(m_peer);
+    }
+}
+
 void LoopServer::onReadyRead()
 {
     auto *s = qobject_cast<QSslSocket *>(sender());
     if (!s || s != m_peer || m_holdReads) {
         return;
     }
+    drain(s);
+}
+
+void LoopServer::drain(QSslSocket *s)
+{
     const auto data = s->readAll();
     m_rx += data;
     m_itemBuf += data;
